@@ -210,12 +210,16 @@ theorem countRefs_none : ∀ {elems : List Elem}, countRefs elems = none → ∀
       | none => simp [hatt] at h
       | some ru =>
         simp only [hatt] at h
-        split at h
-        · cases h
-        · rcases List.mem_cons.1 he with he | he
-          · subst he
-            simp [usesRsp, hph, hatt]
-          · exact countRefs_none h e he
+        have hrest : countRefs r = none := by
+          split at h
+          · split at h
+            · cases h
+            · exact h
+          · exact h
+        rcases List.mem_cons.1 he with he | he
+        · subst he
+          simp [usesRsp, hph, hatt]
+        · exact countRefs_none hrest e he
 
 theorem goodOuts_of_all_good {elems : List Elem} (h : ∀ e ∈ elems, e.outputErrors = false) :
     goodOuts elems = elems.flatMap (·.outs) := by
